@@ -218,6 +218,8 @@ def templates(tier="quick"):
         ninja_op(j=3, faults={"build.ninja": {"code": 1}}),
         ninja_op(j=3, faults={"build.ninja": {"code": 7}}),
         {"op": "rm", "path": "s", "label": "rm source s"},
+        # the generator's own source is gone: bringing the manifest up to date is refused (missing, no rule) -- an error, not a success
+        {"op": "rm", "path": "build.ninja.in", "label": "rm source build.ninja.in"},
     ]
     files = {"build.ninja.in": va.manifest(), "s": "s-v0\n"}
     T.append(scenario("manifest_regen/fresh", "template", [va, vb], files=files, ops=ops, init=[], depth=2,
